@@ -356,14 +356,16 @@ def _enc(s: str) -> bytes:
 
 
 def parse_http_listing(body: bytes):
-    """The HTML directory page -> entries (one per table row)."""
+    """The HTML directory page -> entries (one per table row).  Only the table layout is
+    relied on -- icon cell, name cell (the link text, or the cell's text outside the search
+    form for rows without a link), subtype cell -- not the inline styling elements."""
     evs = html_events(_dec(body))
     out = []
-    i = 0
     cur = None
-    in_tt = False
-    in_font = False
     in_table = False
+    td = 0
+    in_a = False
+    in_form = False
     for ev in evs:
         if ev[0] == "start" and ev[1] == "table":
             in_table = True
@@ -372,10 +374,20 @@ def parse_http_listing(body: bytes):
         if not in_table:
             continue
         if ev[0] == "start" and ev[1] == "tr":
-            cur = {"info": True, "name": b"", "target": ("none",), "type": None, "kind": None, "subtype": "", "icon": None}
+            cur = {"info": True, "name": b"", "target": ("none",), "type": None, "kind": None, "subtype": "", "icon": None, "_cell": b""}
+            td = 0
+            in_a = in_form = False
         elif ev[0] == "end" and ev[1] == "tr" and cur is not None:
-            sub = cur["subtype"]
-            if cur["search"] if "search" in cur else False:
+            sub = cur["subtype"].strip()
+            cur["subtype"] = sub
+            if "raw" not in cur or cur.get("search"):
+                # no link: the name is the text of the name cell (one decorative no-break space before it)
+                cell = cur["_cell"]
+                if cell.startswith(b"\xc2\xa0"):
+                    cell = cell[2:]
+                cur["name"] = cell
+            del cur["_cell"]
+            if cur.get("search"):
                 cur["kind"] = "search"
                 cur["info"] = False
             elif not cur["info"]:
@@ -384,6 +396,8 @@ def parse_http_listing(body: bytes):
             cur = None
         elif cur is None:
             continue
+        elif ev[0] == "start" and ev[1] == "td":
+            td += 1
         elif ev[0] == "start" and ev[1] == "img":
             cur["icon"] = dict(ev[2]).get("src")
         elif ev[0] == "start" and ev[1] == "a":
@@ -391,23 +405,23 @@ def parse_http_listing(body: bytes):
             cur["target"] = _url_target(_enc(href))
             cur["raw"] = _enc(href)
             cur["info"] = False
+            in_a = True
+        elif ev[0] == "end" and ev[1] == "a":
+            in_a = False
         elif ev[0] == "start" and ev[1] == "form":
             href = dict(ev[2]).get("action") or ""
             cur["target"] = _url_target(_enc(href))
             cur["raw"] = _enc(href)
             cur["search"] = True
-        elif ev[0] == "start" and ev[1] == "tt":
-            in_tt = True
-        elif ev[0] == "end" and ev[1] == "tt":
-            in_tt = False
-        elif ev[0] == "start" and ev[1] == "font":
-            in_font = True
-        elif ev[0] == "end" and ev[1] == "font":
-            in_font = False
+            in_form = True
+        elif ev[0] == "end" and ev[1] == "form":
+            in_form = False
         elif ev[0] == "data":
-            if in_tt:
+            if in_a:
                 cur["name"] += _enc(ev[1])
-            elif in_font:
+            elif td == 2 and not in_form:
+                cur["_cell"] += _enc(ev[1])
+            elif td >= 3:
                 cur["subtype"] += ev[1]
     return out
 
@@ -416,7 +430,7 @@ def parse_wap_listing(body: bytes):
     """WML directory card -> entries.  Lines are `[k ]<a ...>name</a><br/>` for
     links and `name<br/>` for informational text."""
     text = _dec(body)
-    m = re.search(r"<p>\n<b>.*?</b><br/>\n(.*)</p>\n</card>\n</wml>\n$", text, re.S)
+    m = re.search(r"<card\b[^>]*>\s*<p>\s*(?:<b>.*?</b>\s*<br\s*/>\n?)?(.*)</p>\s*</card>\s*</wml>\s*$", text, re.S | re.I)
     if not m:
         raise ValueError("no WML directory card")
     inner = m.group(1)
